@@ -154,7 +154,10 @@ func ZZ_C17Off(shape int) {
 	ps := verifhook.Uint64("pageSize")
 	verifhook.Assume(ps >= 1)
 	verifhook.Assume(ps <= MaxPageSize)
-	verifhook.Assume(off < 1<<40)
+	// a walk from the first page only reaches offsets below the collection size; bun keeps
+	// OFFSET as an int32, so offsets from 2^31 on (reachable only in a collection of 2^31
+	// rows) are outside the claim
+	verifhook.Assume(off < 1<<31)
 	q := OffsetPaginatedQuery[zzFilters]{Offset: off, PageSize: ps, Order: OrderAsc, Options: zzFilters{Tag: "t"}}
 	c, err := UsingOffset[zzFilters, zzRow](context.Background(), zzTable(ids).OrderExpr("id ASC"), q)
 	verifhook.Assert(err == nil, "C17 offset page query fails")
